@@ -409,7 +409,13 @@ class C03:
 # ---------------------------------------------------------------- C04
 
 def c04(rec):
-    if rec.get("mod") != "storage":
+    if rec.get("mod") == "wasm":
+        # a file posted through the contract binding is a MsgPostFile in the contract's name: same accounting
+        if not isinstance(rec.get("op"), dict) or "postFile" not in rec["op"]:
+            return []
+        if rec["ok"] and rec["op"]["postFile"]["creator"] != rec.get("contract"):
+            return [V("C04", "contract-posted-for-another-account", f"a contract ({rec.get('contract')}) posted a file that {rec['op']['postFile']['creator']} pays for", op="postFile")]
+    elif rec.get("mod") != "storage":
         return []
     k, v = opk(rec)
     if k == "setParams":
